@@ -1,6 +1,7 @@
 SPECIFICATION Spec
 CONSTANTS
+  NoGitRec = TRUE
   SortedFlags = TRUE
   Emit = TRUE
-INVARIANTS WithinDocumented Deterministic Replay
+INVARIANTS WithinDocumented Deterministic LnRight Replay
 CHECK_DEADLOCK FALSE
